@@ -248,27 +248,27 @@ func init() {
 	})
 	eng.Register(&eng.Scenario{
 		Name: "memo-3", Props: []string{"C16"}, MustFinish: true, ObsNames: stdObs,
-		Doc:   "memo.MemoizeFunc: 3 concurrent callers + a late caller, function returns a value or an error (choice); exactly one call, everybody gets its result",
+		Doc:   "memo.MemoizeFunc: 3 concurrent callers + a late caller, function returns a value, an error, a partial value together with an error, or the zero value (choice); exactly one call, everybody gets its result pair",
 		Quick: eng.Bounds{PB: 3}, Thorough: eng.Bounds{PB: 6},
 		Body: func() {
-			wantErr := vsched.Choose(2) == 1
+			// outcome of the only call: (7,nil), (0,E), (5,E) (a partial value together with an error), (0,nil)
+			outcome := vsched.Choose(4)
+			wantV := []int{7, 0, 5, 0}[outcome]
+			wantE := []error{nil, errOnce, errOnce, nil}[outcome]
 			f := memo.MemoizeFunc(func() (int, error) {
 				if vsched.CtrAdd(c16Calls, 1) > 1 {
 					fail("C16.memo-called-twice", "memoized function called twice")
 				}
 				vsched.Point()
-				if wantErr {
-					return 0, errOnce
-				}
-				return 7, nil
+				return wantV, wantE
 			})
 			check := func() {
 				label("memo")
 				v, err := f()
 				label("")
 				vsched.Observe(oRet, int64(v), b2i(err != nil), 0)
-				if wantErr && (err != errOnce || v != 0) || !wantErr && (err != nil || v != 7) {
-					fail("C16.memo-result", "caller received (%d,%v)", v, err)
+				if v != wantV || err != wantE {
+					fail("C16.memo-result", "caller received (%d,%v), the only call of the function returned (%d,%v)", v, err, wantV, wantE)
 				}
 			}
 			for i := 0; i < 3; i++ {
